@@ -454,3 +454,70 @@ def run(ck, prog):
     _run_pre_negcast(ck, prog)
     from sa import negcast
     negcast.run_rule(ck, prog, set(DIMENSION_FILES))
+
+
+# ------------------------------------------------------------------ the stored threshold lies strictly below the upper value
+_run_pre_midpoint = run
+
+
+def threshold_below_upper(ck, prog):
+    """'the value it predicts is [that] of exactly those training rows that are routed to the same leaf': the sweep counts the
+    rows with x <= prevx on the true side and x >= upper on the false side, and stores a threshold between them that
+    predict/split compare with `<=`. The arithmetic midpoint (upper + prevx) / 2 of two adjacent floating-point values can
+    round up to `upper` (0.3 and 0.1 + 0.2), which routes the `upper` rows to the true child although they were counted on the
+    false side. Necessary condition: the stored threshold is not the bare midpoint - it is selected under a comparison of
+    the midpoint with the upper value (falling back to the lower value)."""
+    from sa.prov import Resolver, render, subterms, alts
+    rule = "E1-guard"
+    for nm, P in TREES.items():
+        inst = f"{nm}: the stored threshold is the midpoint only if that is below the upper value"
+        b = _one(ck, prog, rule, inst, P + "find_best_split")
+        if not b:
+            continue
+        cx = BodyCtx.of(b)
+        res = cx.res
+        stores = []
+        for l, ds in b.partial_defs.items():
+            for d in ds:
+                if d.kind == "assign" and any(isinstance(e, dict) and e.get("n") == "split_value" for e in d.data["p"]["pr"]):
+                    stores.append((d, res.rvalue(d.data["r"], 0, ())))
+        for l, ds in b.defs.items():
+            for d in ds:
+                if d.kind == "store" and any(isinstance(e, dict) and e.get("n") == "split_value" for e in d.data["p"]["pr"]):
+                    stores.append((d, res.rvalue(d.data["r"], 0, ())))
+        mids = []
+        for d, tm in stores:
+            for s in subterms(tm):
+                if s[0] == "call" and s[1].endswith("Div::div") and len(s[2]) == 2 and s[2][0][0] == "call" and s[2][0][1].endswith("Add::add"):
+                    mids.append((d, tm, s))
+                    break
+        if not mids:
+            ck.note(f"{inst}: no midpoint stored into split_value (threshold chosen differently): no instance")
+            continue
+        d, tm, mid = mids[0]
+        where = b.where(d.bb, d.idx if d.idx != "term" else "term")
+        # the stored value must be a selection (phi) between the midpoint and another value, decided by a comparison of the midpoint
+        selected = any(a != mid and not any(x == mid for x in subterms(a)) for a in alts(_payload(tm))) and \
+            any((c.lhs == mid or c.rhs == mid) for c in cx.cmps)
+        if selected:
+            ck.ok(rule, inst, b.path, where, f"threshold = `{render(mid)[:60]}` only under a comparison with the upper value")
+        else:
+            ck.violation(rule, inst, b.path, where,
+                         expected="the midpoint is stored only if it compares below the upper value, otherwise the lower value is stored",
+                         found=f"split_value = `{render(mid)[:80]}` unconditionally: for adjacent floating-point values the midpoint rounds up to "
+                               f"the upper one and the rows counted on the false side are routed to the true child")
+
+
+def _payload(t):
+    """strip Some(..) / Option aggregates"""
+    while t[0] in ("agg", "variant") and len(t) > 2 and isinstance(t[2], tuple) and len(t[2]) == 1:
+        t = t[2][0]
+    return t
+
+
+def run(ck, prog):
+    _run_pre_midpoint(ck, prog)
+    threshold_below_upper(ck, prog)
+
+
+EXPLANATION += (' Threshold: the midpoint is stored in split_value only under a comparison with the upper value (found and fixed: for adjacent floats the midpoint rounds up to the upper value and rows change sides).')
